@@ -4,6 +4,7 @@ go 1.19
 
 require (
 	github.com/openkruise/rollouts v0.0.0
+	github.com/yuin/gopher-lua v0.0.0-20220504180219-658193537a64
 	k8s.io/api v0.26.3
 	k8s.io/apimachinery v0.26.3
 	k8s.io/klog/v2 v2.100.1
